@@ -62,6 +62,8 @@ class Calls:
             h = self.engine.ext_attrs.get((base.kind.split(".")[-1], name))
             if h is not None:
                 return h(self, base, node, fr)
+            if base.kind.startswith("ast.") and self.engine.ast_model is not None:
+                return self.engine.ast_model[1](self, base, name, node, fr)
         if isinstance(base, (VStr, VList, VDict, VSet, VTuple, VStream, VExt, VInt, VBuiltin)):
             if isinstance(base, VBuiltin) and base.name in self.EXTERNAL_CALLABLES:
                 return self.external_value(f"{base.name}.{name}")
@@ -192,6 +194,8 @@ class Calls:
                         mm.append(m)
                 if mm:
                     return self.dispatch_method(obj, name, subs, node, fr)
+                if fr.in_spec or self.path.temps:
+                    return VOpaque("undefined." + name)  # guarded by an isinstance test that is false here
                 raise Unsupported(f"attribute {name} not found on {obj!r}")
             # the dynamic class must be one declaring it (else AttributeError; mypy rules this out)
             if len(tops) == 1:
@@ -212,6 +216,7 @@ class Calls:
                 raise Unsupported(f"no annotation for field {dc.name}.{name}")
             v = self.mk_sym(ann, dc.module, f"{dc.name}.{name}", (obj.ident,))
             self.path.cache[key] = v
+            self.assume_init_requires(obj, dc)
             return v
         # methods / properties: dynamic dispatch over the possible classes
         subs2: List[ClassInfo] = []
@@ -220,6 +225,40 @@ class Calls:
                 if d not in subs2:
                     subs2.append(d)
         return self.dispatch_method(obj, name, subs2, node, fr)
+
+    def assume_init_requires(self, obj: SymObj, cls: ClassInfo) -> None:
+        """Data invariant of a symbolic input object: the ``@require``s of its class's ``__init__`` hold
+        for its fields (every instance went through the constructor; fields of these classes are Final or
+        never reassigned -- assumption listed in the evidence)."""
+        flag = ("init-inv", obj.key(), cls.qualname)
+        if flag in self.path.cache:
+            return
+        self.path.cache[flag] = True
+        init = cls.methods.get("__init__")
+        if init is None or not init.requires:
+            return
+        pnames = [p.arg for p in init.params][1:]
+        for lam, desc in init.requires:
+            args = [a.arg for a in lam.args.args]
+            if not all(a in pnames for a in args):
+                continue
+            # only parameters stored verbatim into the field of the same name
+            ok = True
+            for a in args:
+                fa = cls.field_annotation(a)
+                if fa is None or fa[1] is None:
+                    ok = False
+            if not ok:
+                continue
+            lfr = Frame(cls.module, None, {}, None)
+            lfr.in_spec = True
+            try:
+                for a in args:
+                    lfr.env[a] = self.sym_getattr(obj, a, None, lfr)
+                self.assume_term(self.truthy(self.ev(lam.body, lfr)))
+                self.note_assumption(f"data invariant: @require of {init.qualname} holds for symbolic instances")
+            except (Unsupported, PathEnd):
+                continue
 
     def dispatch_method(self, obj: SymObj, name: str, subs: List[ClassInfo], node: Any, fr: Frame) -> V:
         impls: List[Tuple[FuncInfo, List[ClassInfo]]] = []
@@ -354,6 +393,9 @@ class Calls:
                     return self.from_py(getattr(mod, fi.name)(**dict(zip(env.keys(), conc))))
                 except ImportError:
                     pass
+        model = self.engine.func_models.get(fi.qualname)
+        if model is not None:
+            return model(self, env, node, fr)
         contract = self.engine.contract_for(fi.qualname)
         unit = self.unit
         if any(fi.qualname.startswith(p) for p in getattr(unit, "pure", ())):
@@ -497,6 +539,10 @@ class Calls:
         # frame: havoc what the callee may modify
         if contract is not None:
             for pname in contract.modifies:
+                if "." in pname:
+                    base, _, field = pname.rpartition(".")
+                    self.havoc_field(self.eval_spec(base, cfr), field, cfr)
+                    continue
                 cur = env.get(pname)
                 if isinstance(cur, (VList, VDict, VStream)):
                     tmp = Frame(fi.module)
